@@ -166,11 +166,13 @@ def _extract_random(run, n):
         yield extract_line(items)
 
 
-TYPE_KEYS = ["gbkey", "GBKEY", "my_class", "x_typed", "type", "classy", "gb_key", "_TYPE", "feature_type", "note"]
+TYPE_KEYS = ["gbkey", "GBKEY", "my_class", "x_typed", "type", "classy", "gb_key", "_TYPE", "feature_type", "note",
+             "x_typo", "gbke", "my_clas"]          # near misses: one character short of an identifier
 
 
 def _types_cases(run, kmax, nrand):
     vals = {k: [f"t{i}", f"t{(i + 1) % 4}"] for i, k in enumerate(TYPE_KEYS)}
+    vals.update({"x_typo": ["n1"], "gbke": ["n2"], "my_clas": ["n3"]})
     for k in range(0, kmax + 1):
         for subset in itertools.combinations(TYPE_KEYS, k):
             for order in itertools.permutations(subset):
@@ -355,7 +357,7 @@ def cases(run):
     EXHAUSTIVE_NOTE = (f"extract: all subsets of size <= {kmax} of 14 keys (9 recognised + genes, xname, ID2, Gene, NAME) "
                        "x all orderings, distinct values; the /note grid (11 note values x 7 contexts x every position); "
                        "whitespace look-alikes of 4 keys. types: all ordered selections of <= "
-                       f"{3 if thorough else 2} of 10 keys x 3 initial sets. merge: all pairs of dicts over keys {{a,b}}, "
+                       f"{3 if thorough else 2} of 13 keys x 3 initial sets. merge: all pairs of dicts over keys {{a,b}}, "
                        "values {x,y}, <= 2 values per key" + ("" if thorough else " (a fixed half of them)") +
                        ". fsq: 26 keys x 3 contexts x every position. ltgroup: every feature sequence with " +
                        "; ".join(f"<= {n} features over tags {t} x kinds {k}" for t, k, n in lt_scopes) +
